@@ -204,12 +204,23 @@ fn judge_call<F: Float>(obj: &FFT<F>, a: &[i32], b: &[i32]) -> Result<(), (&'sta
     // 3. accumulate-into variant on a pre-filled destination, longer than needed
     let mut o2 = obj.clone();
     let dl = exp.len() + 3;
-    let mut dest: Vec<i64> = (0..dl).map(|i| 1000 + 7 * i as i64).collect();
+    // the destination's previous contents are arbitrary i64 values: small ones, and ones that no float
+    // type represents exactly (above 2^24 / 2^53), of both signs, far from overflowing when the product is added
+    let pre = |i: usize| -> i64 {
+        match i % 5 {
+            0 => 1000 + 7 * i as i64,
+            1 => (1i64 << 53) + 1 + i as i64,
+            2 => -(1i64 << 60) - 3 * i as i64,
+            3 => (1i64 << 24) + 1,
+            _ => (1i64 << 61) + 12345,
+        }
+    };
+    let mut dest: Vec<i64> = (0..dl).map(pre).collect();
     catch(|| o2.multiply_into(a, b, &mut dest)).map_err(|p| ("multiply_panics", format!("multiply_into panicked: {p}")))?;
     for i in 0..dl {
-        let want = 1000 + 7 * i as i64 + if i < exp.len() { exp[i] } else { 0 };
+        let want = pre(i) + if i < exp.len() { exp[i] } else { 0 };
         if dest[i] != want {
-            return Err(("multiply_into_accumulates", format!("multiply_into on a destination pre-filled with 1000+7i: entry {i} is {}, expected {} (convolution term {})", dest[i], want, if i < exp.len() { exp[i] } else { 0 })));
+            return Err(("multiply_into_accumulates", format!("multiply_into on a pre-filled destination: entry {i} held {} before, is {} after, expected {} (convolution term {})", pre(i), dest[i], want, if i < exp.len() { exp[i] } else { 0 })));
         }
     }
     if exp.is_empty() {
@@ -223,7 +234,7 @@ fn judge_call<F: Float>(obj: &FFT<F>, a: &[i32], b: &[i32]) -> Result<(), (&'sta
             let fb = o4.fft(b, 1);
             let prod = vec![fa[0] * fb[0]];
             let inv = o4.fft_inv(&prod);
-            let mut acc = vec![5i64; 1];
+            let mut acc = vec![(1i64 << 55) + 9; 1];
             o4.fft_inv_into(&prod, &mut acc);
             (inv, acc)
         })
@@ -231,8 +242,8 @@ fn judge_call<F: Float>(obj: &FFT<F>, a: &[i32], b: &[i32]) -> Result<(), (&'sta
         if r.0 != exp {
             return Err(("transform_product_inverse", format!("size-1 transforms: fft(a)*fft(b) -> fft_inv gives {:?}, the product is {:?}", r.0, exp)));
         }
-        if r.1 != vec![exp[0] + 5] {
-            return Err(("fft_inv_into_accumulates", format!("size-1 fft_inv_into on a destination holding 5 gives {:?}, expected {:?}", r.1, vec![exp[0] + 5])));
+        if r.1 != vec![exp[0] + (1i64 << 55) + 9] {
+            return Err(("fft_inv_into_accumulates", format!("size-1 fft_inv_into on a destination holding 2^55+9 gives {:?}, expected {:?}", r.1, vec![exp[0] + (1i64 << 55) + 9])));
         }
     }
     // 4. forward transforms, pointwise product, inverse transform
@@ -247,7 +258,7 @@ fn judge_call<F: Float>(obj: &FFT<F>, a: &[i32], b: &[i32]) -> Result<(), (&'sta
         let prod: Vec<Complex<F>> = fa.iter().zip(fb.iter()).map(|(x, y)| *x * *y).collect();
         let inv = o3.fft_inv(&prod);
         // accumulate-into form of the inverse as well
-        let mut acc = vec![5i64; n];
+        let mut acc: Vec<i64> = (0..n).map(|i| if i % 2 == 0 { 5 } else { (1i64 << 55) + 9 }).collect();
         o3.fft_inv_into(&prod, &mut acc);
         (inv, acc)
     })
@@ -257,9 +268,9 @@ fn judge_call<F: Float>(obj: &FFT<F>, a: &[i32], b: &[i32]) -> Result<(), (&'sta
     if viat.0 != padded {
         return Err(("transform_product_inverse", format!("fft(a)*fft(b) -> fft_inv gives {}, the convolution is {}; {}", show(&viat.0), show(&padded), first_diff(&viat.0, &padded))));
     }
-    let acc_want: Vec<i64> = padded.iter().map(|x| x + 5).collect();
+    let acc_want: Vec<i64> = padded.iter().enumerate().map(|(i, x)| x + if i % 2 == 0 { 5 } else { (1i64 << 55) + 9 }).collect();
     if viat.1 != acc_want {
-        return Err(("fft_inv_into_accumulates", format!("fft_inv_into on a destination pre-filled with 5: {}", first_diff(&viat.1, &acc_want))));
+        return Err(("fft_inv_into_accumulates", format!("fft_inv_into on a pre-filled destination (5 / 2^55+9 alternating): {}", first_diff(&viat.1, &acc_want))));
     }
     Ok(())
 }
